@@ -83,8 +83,9 @@ C22(rec) ==
                   /\ Chk("C22.nothingElsewhere", NothingElsewhere(got, rec.tx.outs), info)
 
 \* ---------------------------------------------------------------- C23
+\* node-funded commands only: sending an inscription by id goes through the ordinal-aware builder (C20), not the node
 C23(rec) ==
-  rec.hasTx =>
+  (rec.hasTx /\ rec.kind # "sendinsc") =>
     LET nc == NonCardinal(rec)
         subj == Subject(rec)
         locked == {rec.locked[i] : i \in 1..Len(rec.locked)}
@@ -142,6 +143,20 @@ View(rec) ==
      /\ Chk("view.warned", rec.warned = both, info)
      /\ Chk("view.runes", ToBal(rec.runes) = perRune, <<info, perRune>>)
 
+\* sending an inscription by id, end to end (the builder itself is C20's subject): a refusal broadcasts nothing; otherwise
+\* the inscription is on the first sat of an output of the recipient, the wallet's other inscriptions did not move (those
+\* sharing the output stay the wallet's), and no runic or other inscribed output was spent
+SendView(rec) ==
+  LET info == <<rec.req, rec.ok, rec.err, IF rec.hasTx THEN rec.tx ELSE <<>>, rec.tag>> IN
+  /\ Chk("send.noPanic", ~rec.panic, info)
+  /\ Chk("send.refusal", ~rec.ok => ~rec.hasTx, info)
+  /\ (rec.ok /\ rec.hasTx /\ "sent" \in DOMAIN rec) =>
+       /\ Chk("send.arrived", rec.sent.owner = "d1" /\ rec.sent.offset = 0, <<info, rec.sent>>)
+       /\ Chk("send.othersStay", rec.sent.othersMoved = 0 /\ rec.sent.companionsKept, <<info, rec.sent>>)
+       /\ Chk("send.inputs", \A i \in 1..Len(rec.tx.ins) :
+                               (rec.tx.ins[i].o \in NonCardinal(rec)) => rec.tx.ins[i].o = rec.req.from, info)
+       /\ Chk("send.notRunic", ~rec.req.fromRunic, info)
+
 Init == l = 1 /\ idr = <<>>
 Next == /\ l <= Len(Rec)
         /\ LET rec == Rec[l] IN
@@ -150,6 +165,7 @@ Next == /\ l <= Len(Rec)
            ELSE IF rec.event = "Balance"
            THEN UNCHANGED idr /\ (PROP = "VIEW" => View(rec))
            ELSE /\ UNCHANGED idr
+                /\ (PROP = "VIEW" /\ rec.kind = "sendinsc" => SendView(rec))
                 /\ (PROP = "C22" => C22(rec))
                 /\ (PROP = "C23" => C23(rec))
                 /\ (PROP = "DRIFT" => Drift(rec))
